@@ -115,7 +115,8 @@ type lenGuard struct {
 	ifi   *ssa.If
 	op    token.Token
 	other ssa.Value
-	neg   bool // the If tests the negation of the comparison
+	neg   bool  // the If tests the negation of the comparison
+	off   int64 // the compared quantity is len(v) + off
 }
 
 // lenGuards finds the branches whose condition compares len(v) (possibly after
@@ -142,19 +143,19 @@ func lenGuards(v ssa.Value) []lenGuard {
 			}
 		}
 	}
-	var fromLen func(x ssa.Value, exact bool, d int)
-	fromLen = func(x ssa.Value, exact bool, d int) {
+	var fromLen func(x ssa.Value, off int64, d int)
+	fromLen = func(x ssa.Value, off int64, d int) {
 		if d > 4 {
 			return
 		}
 		for _, r := range ssau.Refs(x) {
 			switch r := r.(type) {
 			case *ssa.Convert:
-				fromLen(r, exact, d+1)
+				fromLen(r, off, d+1)
 			case *ssa.BinOp:
 				switch r.Op {
 				case token.LSS, token.LEQ, token.GTR, token.GEQ, token.EQL, token.NEQ:
-					g := lenGuard{op: r.Op, other: r.Y}
+					g := lenGuard{op: r.Op, other: r.Y, off: off}
 					if r.Y == x {
 						g.other = r.X
 						switch r.Op { // flip: len on the left
@@ -168,22 +169,24 @@ func lenGuards(v ssa.Value) []lenGuard {
 							g.op = token.LEQ
 						}
 					}
-					if !exact {
-						// len(v)±k compared: keep as a guard for variable indices only (constant bound not evaluated)
-						if _, isC := g.other.(*ssa.Const); isC {
-							continue
-						}
-					}
 					toIf(r, g, 0)
 				case token.ADD, token.SUB:
-					fromLen(r, false, d+1)
+					// len(v) ± constant
+					if k, isC := ssau.ConstInt(r.Y); isC && r.X == x {
+						if r.Op == token.SUB {
+							k = -k
+						}
+						fromLen(r, off+k, d+1)
+					} else if k, isC := ssau.ConstInt(r.X); isC && r.Y == x && r.Op == token.ADD {
+						fromLen(r, off+k, d+1)
+					}
 				}
 			}
 		}
 	}
 	for _, r := range ssau.Refs(v) {
 		if c, ok := r.(*ssa.Call); ok && ssau.Builtin(c) == "len" && len(c.Call.Args) == 1 && c.Call.Args[0] == v {
-			fromLen(c, true, 0)
+			fromLen(c, 0, 0)
 		}
 	}
 	return out
@@ -213,7 +216,7 @@ func sideOf(ifi *ssa.If, u *ssa.BasicBlock) int {
 }
 
 // lowerBound: what `len OP c` proves about len on the given side (-1: nothing).
-func lowerBound(op token.Token, c int64, truth bool) int64 {
+func lowerBound(op token.Token, c int64, truth bool) (int64, bool) {
 	if !truth { // negate the comparison
 		switch op {
 		case token.LSS:
@@ -232,15 +235,11 @@ func lowerBound(op token.Token, c int64, truth bool) int64 {
 	}
 	switch op {
 	case token.GEQ, token.EQL:
-		return c
+		return c, true
 	case token.GTR:
-		return c + 1
-	case token.NEQ:
-		if c == 0 {
-			return 1
-		}
+		return c + 1, true
 	}
-	return -1
+	return 0, false
 }
 
 // intRoots: the variables an integer expression is built from (constants dropped;
@@ -312,8 +311,24 @@ func affine(v ssa.Value, d int) (root any, off int64, ok bool) {
 				return f, 0, true
 			}
 		}
+	case *ssa.Call:
+		if ssau.Builtin(x) == "len" && len(x.Call.Args) == 1 {
+			return lenOf(x.Call.Args[0]), 0, true
+		}
 	}
 	return v, 0, true
+}
+
+// lenKey identifies "the length of this slice variable" (a field by its object).
+type lenKey struct{ of any }
+
+func lenOf(sl ssa.Value) any {
+	if u, ok := sl.(*ssa.UnOp); ok && u.Op == token.MUL {
+		if f := ssau.FieldOf(u.X); f != nil {
+			return lenKey{f}
+		}
+	}
+	return lenKey{sl}
 }
 
 // req: the access needs len(v) >= root + off (root nil: a constant).
@@ -349,8 +364,13 @@ func guardedAt(v ssa.Value, u *ssa.BasicBlock, reqs []req) bool {
 			switch {
 			case rq.affine && gaff && groot == rq.root:
 				// same variable (or both constant): evaluate the bound the test proves
-				if lowerBound(sg.g.op, goff, sg.truth) >= rq.off {
+				if lb, proven := lowerBound(sg.g.op, goff, sg.truth); proven && lb-sg.g.off >= rq.off {
 					ok = true
+				} else if !proven && groot == nil && goff-sg.g.off == 0 && rq.off <= 1 {
+					// len(v) != 0 (either spelling): at least one element
+					if (sg.g.op == token.NEQ && sg.truth) || (sg.g.op == token.EQL && !sg.truth) {
+						ok = true
+					}
 				}
 			case rq.affine && rq.root == nil:
 				// constant index, length compared with a run-time count (e.g. the number of declared properties): not evaluated
@@ -393,6 +413,94 @@ func accessReqs(index ssa.Value, low, high ssa.Value) []req {
 	return out
 }
 
+// copyClamp (CNT-1): copy(dst, tokens[k:]) takes min(len(dst), available) elements. When the source is
+// open-ended (its length is "what is left on the line") and the destination's length is not, the copy
+// silently clamps a declared count unless a dominating test proves len(tokens) >= k + len(dst), or the
+// number copied is compared afterwards. A source with explicit (TOK-1 guarded) bounds has a fixed length.
+func (t *tokCheck) copyClamp(src ssa.Value, call *ssa.Call) string {
+	if !t.a.openTokens(src, 0) {
+		return ""
+	}
+	base, low := src, int64(0)
+	for {
+		sl, ok := base.(*ssa.Slice)
+		if !ok || sl.High != nil {
+			break
+		}
+		if sl.Low != nil {
+			k, isC := ssau.ConstInt(sl.Low)
+			if !isC {
+				break
+			}
+			low += k
+		}
+		base = sl.X
+	}
+	// the number copied is looked at
+	seen := map[ssa.Value]bool{}
+	work := []ssa.Value{call}
+	for len(work) > 0 {
+		v := work[len(work)-1]
+		work = work[:len(work)-1]
+		if seen[v] {
+			continue
+		}
+		seen[v] = true
+		for _, r := range ssau.Refs(v) {
+			switch r := r.(type) {
+			case *ssa.BinOp:
+				switch r.Op {
+				case token.LSS, token.LEQ, token.GTR, token.GEQ, token.EQL, token.NEQ:
+					for _, rr := range ssau.Refs(r) {
+						if _, ok := rr.(*ssa.If); ok {
+							return ""
+						}
+					}
+				case token.ADD, token.SUB:
+					work = append(work, r)
+				}
+			case *ssa.Convert:
+				work = append(work, r)
+			}
+		}
+	}
+	// len(dst)
+	dst := call.Call.Args[0]
+	rq := req{expr: dst, affine: true}
+	if ds, ok := dst.(*ssa.Slice); ok && ds.High != nil {
+		root, off, aff := affine(ds.High, 0)
+		if ds.Low != nil {
+			lroot, loff, laff := affine(ds.Low, 0)
+			switch {
+			case !laff:
+				aff = false
+			case lroot == nil:
+				off -= loff
+			case lroot == root:
+				root, off = nil, off-loff // dst[i : i+k]: k elements
+			default:
+				aff = false
+			}
+		}
+		rq.expr, rq.root, rq.off, rq.affine = ds.High, root, off+low, aff
+	} else if ms, ok := dst.(*ssa.MakeSlice); ok {
+		root, off, aff := affine(ms.Len, 0)
+		rq.expr, rq.root, rq.off, rq.affine = ms.Len, root, off+low, aff
+	} else {
+		rq.root, rq.off = lenOf(dst), low
+	}
+	if c := (&cntCheck{a: t.a, av: map[ssa.Value]bool{}, avCell: map[*ssa.Alloc]bool{}, reader: map[ssa.Value]bool{}, fi: t.a.info(call.Parent())}); rq.affine && rq.root != nil {
+		// a destination sized by the available tokens themselves is no clamp of a declared count
+		if v, ok := rq.root.(ssa.Value); ok && c.isAV(v, 0) {
+			return ""
+		}
+	}
+	if guardedAt(base, call.Block(), []req{rq}) {
+		return ""
+	}
+	return "copy at " + t.a.p.Pos(ssau.PosOf(call)) + " takes min(len(destination), tokens left on the line) elements and no test proves that as many tokens are left as the destination (sized by the declared count) expects"
+}
+
 func reqText(rs []req) string {
 	for _, r := range rs {
 		if r.affine && r.root == nil {
@@ -403,10 +511,12 @@ func reqText(rs []req) string {
 }
 
 type tokCheck struct {
-	a    *analysis
-	memo map[*ssa.Parameter]string // "" = guarded, else description of the first unguarded use
-	busy map[*ssa.Parameter]bool
-	uses int
+	copies int    // copy() calls out of the token list
+	clamp  string // CNT-1: first copy that lets the available tokens clamp a declared count
+	a      *analysis
+	memo   map[*ssa.Parameter]string // "" = guarded, else description of the first unguarded use
+	busy   map[*ssa.Parameter]bool
+	uses   int
 }
 
 // unguarded returns a description of the first indexing of token list v (or of a
@@ -454,6 +564,13 @@ func (t *tokCheck) unguarded(v ssa.Value, depth int) string {
 				return d
 			}
 		case *ssa.Call:
+			if ssau.Builtin(r) == "copy" && len(r.Call.Args) == 2 && r.Call.Args[1] == v {
+				t.copies++
+				if d := t.copyClamp(v, r); d != "" && t.clamp == "" {
+					t.clamp = d
+				}
+				continue
+			}
 			if ssau.Builtin(r) != "" {
 				continue
 			}
@@ -518,7 +635,18 @@ func (a *analysis) tok1(fi *fnInfo, add func(rule, construct string, pos token.P
 		n++
 		key := fi.name + "→tokens#" + itoa(n)
 		t := &tokCheck{a: a, memo: map[*ssa.Parameter]string{}, busy: map[*ssa.Parameter]bool{}}
-		if d := t.unguarded(c, 0); d != "" {
+		d := t.unguarded(c, 0)
+		if t.copies > 0 {
+			ckey := fi.name + "→tokens#" + itoa(n) + "/copy"
+			if t.clamp != "" {
+				add("CNT-1", ckey, ssau.PosOf(c), ob.Violation,
+					t.clamp+": a line cut short keeps whatever the (reused) destination held before — the declared count is clamped to what is there instead of the input being rejected",
+					"token list split from (*bufio.Scanner).Text()", "copies out of the list examined: "+itoa(t.copies))
+			} else {
+				add("CNT-1", ckey, ssau.PosOf(c), ob.Holds, "", "copies out of the token list examined: "+itoa(t.copies), "source bounded by guarded slice bounds, or a length test covers the destination, or the number copied is compared")
+			}
+		}
+		if d != "" {
 			add("TOK-1", key, ssau.PosOf(c), ob.Violation,
 				"the tokens of a scanner line are indexed without a test of how many there are ("+d+"): the last line of a file cut at a token boundary is shorter than a record and the access panics (index out of range)",
 				"token list split from (*bufio.Scanner).Text()", "first unguarded use: "+d)
